@@ -400,6 +400,9 @@ Section GuardLists.
     end.
 End GuardLists.
 
+(* C's atol and Python's int() read the same number from the text (Proofs: always, when int() succeeds) *)
+Definition atol_ok (s : text) : bool := match parse_int s with Ok z => c_atol s =? z | Err _ => false end.
+
 Fixpoint expr_guard (G : tcx) (rho : env) (e : pexpr) {struct e} : bool :=
   match e with
   | EInt z => fits z
@@ -441,7 +444,7 @@ Fixpoint expr_guard (G : tcx) (rho : env) (e : pexpr) {struct e} : bool :=
           else if text_eqb f n_int then
             expr_guard G rho a &&
             match pv rho a with
-            | Some (VStr s) => match infer G a with Some LString => wt G e && res_fits (py_call n_int [VStr s]) | _ => false end
+            | Some (VStr s) => match infer G a with Some LString => wt G e && res_fits (py_call n_int [VStr s]) && atol_ok s | _ => false end
             | Some x => is_numv x && match infer G a with Some LString | None => false | _ => true end
                         && res_fits (py_call n_int [x])
             | None => false
